@@ -506,6 +506,22 @@ pub fn order_replay(args: &Args, s: &mut Summary) {
 pub fn shape_relation(args: &Args, s: &mut Summary) {
     let runs = args.opt_usize("runs", 200);
     let mut rng = Rng::new(args.seed);
+    // "merely repeats" means EQUAL values: velocities one unit in the last place apart are different values (the model's
+    // velocities are multiples of 1/1000, so this is checked here, outside it)
+    for (text, want) in [("0,500,4,1,0,100,1,0\n10,-100.00000000000001,4,1,0,100,0,0\n", 1usize),
+                         ("0,500,4,1,0,100,1,0\n0,-200,4,1,0,100,0,0\n10,-199.99999999999997,4,1,0,100,0,0\n", 2),
+                         ("0,500,4,1,0,100,1,0\n10,-100,4,1,0,100,0,0\n", 0)] {
+        let file = format!("osu file format v14\n\n[TimingPoints]\n{text}");
+        s.checks += 1;
+        match guarded("ulp velocities", || rosu_map::from_str::<TimingPoints>(&file)) {
+            Ok(Ok(tp)) => {
+                if tp.control_points.difficulty_points.len() != want {
+                    s.mismatch("velocity-within-epsilon-dropped", json!({"text": file, "difficulty_points": tp.control_points.difficulty_points.len(), "want": want}));
+                }
+            }
+            _ => s.mismatch("io-error", json!({"text": file})),
+        }
+    }
     let times = ["0", "-0", "0.0", "-0.0", "1e-17", "-1e-17", "10", "10.0", "1e1", "9.999999999999999", "-5", "-5.5", "20", "1e3", "0.5", "2147483647", "-2147483647"];
     for run in 0..runs {
         let mode = rng.below(4);
